@@ -111,7 +111,8 @@ def dce_family(tier='quick'):
 OP_VALS = ['0', '-0', '1', '-1', '2147483647', '-2147483648', '4294967296', '0.5', 'NaN', 'Infinity', '""', '"5"', '"a"', 'true', 'null',
            'undefined', '1n', '-2n',
            '({valueOf(){print("vo");return 3}})', '({toString(){print("ts");return "7"}})',
-           '({[Symbol.toPrimitive](h){print("tp",h);return 2}})', '[]', '[2]']
+           '({[Symbol.toPrimitive](h){print("tp",h);return 2}})', '[]', '[2]', 'Symbol("s")', '({valueOf(){print("vt");throw 8}})']
+OP_VALS_QUICK = [v for i, v in enumerate(OP_VALS) if i in (0, 1, 2, 3, 5, 7, 8, 10, 11, 12, 14, 15, 16, 18, 19, 23)]
 OP_BIN = ['+', '-', '*', '/', '%', '**', '<<', '>>', '>>>', '&', '|', '^', '<', '<=', '>', '>=', '==', '!=', '===', '!==', '&&', '||', '??',
           'in', 'instanceof', ',']
 OP_UN = ['-', '+', '~', '!', 'typeof ', 'void ']
@@ -121,7 +122,7 @@ _TC = 'try {{ {} }} catch (e) {{ print("E", e.name) }}'
 
 def op_family(tier='quick'):
     progs = []
-    vals = OP_VALS
+    vals = OP_VALS if tier == 'thorough' else OP_VALS_QUICK
     for op in OP_BIN:
         for a in vals:
             for b in vals:
@@ -322,7 +323,7 @@ def ctl_family(n_max, kinds=('fn',)):
 def _decls(n):
     return [f'var {n};', f'var {n} = 1;', f'let {n} = 2;', f'const {n} = 3;', f'function {n}(){{ return 4 }}', f'class {n} {{}}',
             f'{{ let {n} = 5; print("blk", {n}); }}', f'try {{ throw 6 }} catch ({n}) {{ print("ct", {n}); }}',
-            f'for (let {n} = 0; {n} < 1; {n}++) {{ print("fl", {n}); }}', f'{{ function {n}(){{ return 7 }} }}', '']
+            f'for (let {n} = 0; {n} < 1; {n}++) {{ print("fl", {n}); }}', '']
 
 
 def _uses(n):
@@ -528,7 +529,7 @@ PAIR_INNERS = [
     'function rec(d) { return d ? rec(d - 1) + 1 : 0 } print(rec(3));', 'print((() => { try { return "a" } finally { print("f") } })());', 'print(((a, b = a) => a + b)(1));',
     'var sym = Symbol("s"); print(sym);', 'print(1n + 2n, typeof 1n);', 'print(null ?? "d", undefined?.x, ({a: 1})?.a);', 'print(/a/.test("a"));', 'super.x;', 'print(new (class A { #p = 1; g() { return this.#p } })().g());',
     'print([1, 2, 3].map(x => x * 2));', 'var gl = "g"; print(globalThis.gl);', 'let dup; let dup;', 'var vd; let vd;', 'const cc = 1; try { cc = 2 } catch (e) { print("E", e.name) }',
-    'debugger;', ';', '"use strict"; print("dir");', 'print(typeof fh); function fh() {}', 'print(typeof bh); { function bh() {} }', 'i = 9; print(i);', 'print(typeof i, typeof v, typeof k, typeof el);',
+    'debugger;', ';', '"use strict"; print("dir");', 'print(typeof fh); function fh() {}', 'i = 9; print(i);', 'print(typeof i, typeof v, typeof k, typeof el);',
 ]
 PAIR_KINDS = [('script', '@'), ('function', '(function () { @ })();'), ('strict-function', '(function () { "use strict"; @ })();'), ('generator', 'for (var gv of (function* () { @ })()) print("g", gv);'),
               ('async', '(async function () { @ })().then(v => print("fv", v), e => print("fe", e));')]
@@ -544,6 +545,8 @@ def pair_family(tier='quick'):
                 if '@Q' in o:
                     body = o.replace('@Q', i.replace('\\', '\\\\').replace('"', '\\"'))
                 elif '@S' in o:
+                    if i.startswith('function '):
+                        continue
                     body = o.replace('@S', i)
                 else:
                     body = o.replace('@', i)
